@@ -44,6 +44,7 @@ import (
 	iresolver "google.golang.org/grpc/internal/resolver"
 	istats "google.golang.org/grpc/internal/stats"
 	"google.golang.org/grpc/internal/transport"
+	"google.golang.org/grpc/internal/verifhook"
 	"google.golang.org/grpc/keepalive"
 	"google.golang.org/grpc/resolver"
 	"google.golang.org/grpc/serviceconfig"
@@ -709,10 +710,13 @@ type ClientConn struct {
 // WaitForStateChange waits until the connectivity.State of ClientConn changes from sourceState or
 // ctx expires. A true value is returned in former case and false in latter.
 func (cc *ClientConn) WaitForStateChange(ctx context.Context, sourceState connectivity.State) bool {
+	verifhook.At("csm.getNotifyChan", cc.csMgr)
 	ch := cc.csMgr.getNotifyChan()
+	verifhook.At("csm.getState", cc.csMgr)
 	if cc.csMgr.getState() != sourceState {
 		return true
 	}
+	verifhook.At("csm.wait", cc.csMgr)
 	select {
 	case <-ctx.Done():
 		return false
